@@ -623,7 +623,7 @@ func (r *chunkReader) Read(data []byte) (int, error) {
 	bytesToRead := len(data)
 	r.l.Debug("Start cafs reader Read", zap.Int("length", bytesToRead))
 
-	if r.lastChunk && r.rdr == nil {
+	if (r.lastChunk || len(r.keys) == 0) && r.rdr == nil {
 		return 0, io.EOF
 	}
 	for {
